@@ -38,6 +38,7 @@ inline std::string run_isolated(const std::function<void(QOut &)> &fn) {
         close(fd[0]);
         FILE *f = fdopen(fd[1], "w");
         QOut q{f};
+        alarm(3);                 // a query that never returns (e.g. TetTopology with a vertex outside the cell) counts as UB
         fn(q);
         fflush(f);
         _exit(0);
